@@ -40,6 +40,31 @@ fn weights() -> OpWeights {
 	}
 }
 
+/// Apply one operation. A panic inside the library while the *scenario* runs is C12's only if it is one of
+/// the serialization round-trip assertions of `TestChainMonitor` (test_utils.rs); any other debug assertion /
+/// panic belongs to the property that covers that mechanism: the case stops without a C12 verdict.
+fn apply_guarded(sim: &mut Sim, spec: &WorldSpec, op: &Op, ctx: &mut Ctx) -> Result<Option<&'static str>, Failure> {
+	let saved = take_last_panic();
+	let r = std::panic::catch_unwind(std::panic::AssertUnwindSafe(|| apply(sim, spec, op)));
+	match r {
+		Ok(tag) => {
+			set_last_panic(saved);
+			Ok(Some(tag))
+		},
+		Err(_) => {
+			let (msg, loc) = take_last_panic().unwrap_or_default();
+			// TestChainMonitor's watch_channel / update_channel / load_existing_monitor (round-trip assertions)
+			let line: u32 = loc.rsplit(':').next().and_then(|l| l.parse().ok()).unwrap_or(0);
+			if loc.contains("util/test_utils.rs") && (600..=745).contains(&line) {
+				return Err(Failure::new("roundtrip-assertion-in-test-double", format!("panic at {}: {}", loc, msg)).with_key(format!("panic@{}", loc)));
+			}
+			let short = loc.rsplit("/lightning/src/").next().unwrap_or(&loc).to_string();
+			ctx.label(&format!("foreign-failure:panic@{}", short));
+			Ok(None)
+		},
+	}
+}
+
 fn strat(max_ops: usize) -> impl Strategy<Value = Case> {
 	(world_spec(vec![Topology::Pair, Topology::Line3, Topology::Line3]), proptest::collection::vec(op_strategy(weights()), 20..max_ops)).prop_map(|(spec, ops)| Case { spec, ops })
 }
@@ -58,7 +83,7 @@ fn monitors_inner(c: &Case, ctx: &mut Ctx, sim: &mut Sim) -> CaseResult {
 	let mut h = MonHarvest::new(sim, false);
 	let mut tags: Vec<&'static str> = vec![];
 	for (k, op) in c.ops.iter().enumerate() {
-		let tag = apply(sim, &c.spec, op);
+		let Some(tag) = apply_guarded(sim, &c.spec, op, ctx)? else { return Ok(()) };
 		tags.push(tag);
 		if std::env::var("C12_NOHARVEST").is_err() {
 			h.step(sim, is_chain_tag(tag))?;
@@ -155,8 +180,8 @@ fn twin_inner(c: &TwinCase, ctx: &mut Ctx, a: &mut Sim, b: &mut Sim) -> CaseResu
 	let mut tags: Vec<&'static str> = vec![];
 	for op in c.prefix.iter() {
 		sort_mempools(a, b);
-		let ta = apply(a, &c.spec, op);
-		let tb = apply(b, &c.spec, op);
+		let Some(ta) = apply_guarded(a, &c.spec, op, ctx)? else { return Ok(()) };
+		let Some(tb) = apply_guarded(b, &c.spec, op, ctx)? else { return Ok(()) };
 		tags.push(ta);
 		if ta != tb {
 			ctx.label("prefix-diverged");
@@ -286,8 +311,8 @@ fn twin_inner(c: &TwinCase, ctx: &mut Ctx, a: &mut Sim, b: &mut Sim) -> CaseResu
 	}
 	for (i, op) in c.suffix.iter().enumerate() {
 		sort_mempools(a, b);
-		let ta = apply(a, &c.spec, op);
-		let tb = apply(b, &c.spec, op);
+		let Some(ta) = apply_guarded(a, &c.spec, op, ctx)? else { return Ok(()) };
+		let Some(tb) = apply_guarded(b, &c.spec, op, ctx)? else { return Ok(()) };
 		tags.push(ta);
 		if ta != tb {
 			if lenient {
@@ -339,7 +364,7 @@ fn corrupt_oracle(c: &CorruptCase, ctx: &mut Ctx) -> CaseResult {
 	let mut h = MonHarvest::new(&sim, true);
 	h.reread_every = u64::MAX;
 	for (k, op) in c.ops.iter().enumerate() {
-		let tag = apply(&mut sim, &c.spec, op);
+		let Some(tag) = apply_guarded(&mut sim, &c.spec, op, ctx)? else { return Ok(()) };
 		h.step(&sim, is_chain_tag(tag))?;
 		if k % 5 == 0 {
 			h.check_manager(&sim, (k / 5) % sim.w.n)?;
@@ -409,6 +434,7 @@ struct ScoreCase {
 	queries: Vec<Query>,
 	fee: FeeParams,
 	tail: Vec<ScoreOp>,
+	fill_updates: bool,
 }
 
 fn gossip_strat() -> impl Strategy<Value = GossipOp> {
@@ -455,8 +481,9 @@ fn score_strat() -> impl Strategy<Value = ScoreCase> {
 		proptest::collection::vec((any::<u16>(), any::<bool>(), prop_oneof![0u64..100_000, 0u64..20_000_000_000], prop_oneof![Just(0u64), 0u64..5_000_000_000]).prop_map(|(chan, dir, amount_msat, inflight_msat)| Query { chan, dir, amount_msat, inflight_msat }), 4..24),
 		fee,
 		proptest::collection::vec(score_op_strat(), 0..4),
+		proptest::bool::weighted(0.8),
 	)
-		.prop_map(|(spec, extra_nodes, gossip, decay, ops, queries, fee, tail)| ScoreCase { spec, extra_nodes, gossip, decay, ops, queries, fee, tail })
+		.prop_map(|(spec, extra_nodes, gossip, decay, ops, queries, fee, tail, fill_updates)| ScoreCase { spec, extra_nodes, gossip, decay, ops, queries, fee, tail, fill_updates })
 }
 
 fn score_oracle(c: &ScoreCase, ctx: &mut Ctx) -> CaseResult {
@@ -473,6 +500,42 @@ fn score_oracle(c: &ScoreCase, ctx: &mut Ctx) -> CaseResult {
 		apply_gossip(g, &mut m, op);
 	}
 	graph_oracle(g, nd.logger)?;
+	if c.fill_updates {
+		// give every channel both directions' policies so that it can be scored
+		let missing: Vec<(u16, bool)> = {
+			let ro = g.read_only();
+			let mut v = vec![];
+			for (i, ch) in m.chans.iter().enumerate() {
+				if let Some(info) = ro.channel(ch.0) {
+					if info.one_to_two.is_none() {
+						v.push((i as u16, false));
+					}
+					if info.two_to_one.is_none() {
+						v.push((i as u16, true));
+					}
+				}
+			}
+			v
+		};
+		for (i, dir) in missing {
+			let scid = m.chans[i as usize].0;
+			let upd = lightning::ln::msgs::UnsignedChannelUpdate {
+				chain_hash: bitcoin::constants::ChainHash::using_genesis_block(bitcoin::Network::Testnet),
+				short_channel_id: scid,
+				timestamp: 1_700_000_000,
+				message_flags: 1,
+				channel_flags: dir as u8,
+				cltv_expiry_delta: 40,
+				htlc_minimum_msat: 1,
+				htlc_maximum_msat: 4_000_000_000,
+				fee_base_msat: 1000,
+				fee_proportional_millionths: 100,
+				excess_data: vec![],
+			};
+			let _ = g.update_channel_unsigned(&upd);
+		}
+		graph_oracle(g, nd.logger)?;
+	}
 	let res = scorer_oracle(g, nd.logger, &m, c.decay, &c.ops, &c.queries, &c.fee, &c.tail)?;
 	let ro = g.read_only();
 	ctx.label_if(res.entries > 0, "scorer:has-entries");
@@ -488,6 +551,148 @@ fn score_oracle(c: &ScoreCase, ctx: &mut Ctx) -> CaseResult {
 	Ok(())
 }
 
+// ---------------------------------------------------------------------------------------------------
+// (d) output sweeper
+// ---------------------------------------------------------------------------------------------------
+
+use netsim::ext_c12::sweep::*;
+
+#[derive(Clone, Debug, Serialize, Deserialize)]
+struct SweepCase {
+	spec: WorldSpec,
+	ops: Vec<Op>,
+	node: u16,
+	exclude_static: bool,
+	/// per tracked batch: delay (blocks) before the first sweep, 0 = none
+	delays: Vec<u8>,
+}
+
+fn sweep_weights() -> OpWeights {
+	OpWeights { send: 20, claim: 12, fail: 3, deliver: 20, events: 14, forwards: 8, pump: 14, force_close: 8, mine: 30, reorg: 3, setfee: 2, ..OpWeights::zero() }
+}
+
+fn closing_weights() -> OpWeights {
+	OpWeights { claim: 4, events: 14, pump: 20, force_close: 14, mine: 44, reorg: 2, ..OpWeights::zero() }
+}
+
+fn sweep_strat() -> impl Strategy<Value = SweepCase> {
+	let ops = (proptest::collection::vec(op_strategy(sweep_weights()), 8..30), proptest::collection::vec(op_strategy(closing_weights()), 12..36)).prop_map(|(mut a, b)| {
+		a.extend(b);
+		a
+	});
+	(world_spec(vec![Topology::Pair, Topology::Line3]), ops, any::<u16>(), proptest::bool::weighted(0.2), proptest::collection::vec(prop_oneof![Just(0u8), 0u8..12], 8..9))
+		.prop_map(|(spec, ops, node, exclude_static, delays)| SweepCase { spec, ops, node, exclude_static, delays })
+}
+
+fn sweep_oracle(c: &SweepCase, ctx: &mut Ctx) -> CaseResult {
+	let mut sim = c.spec.build(false);
+	sim.min_reorg_floor = sim.chain.height();
+	let x = pick(c.node, sim.w.n);
+	let change = { use bitcoin::hashes::Hash; bitcoin::ScriptBuf::new_p2wpkh(&bitcoin::WPubkeyHash::from_byte_array([7u8; 20])) };
+	let rig_a = Rig::new(change.clone());
+	let mut st = SweepStats::default();
+	let mut tags = vec![];
+	let mut batches = 0usize;
+	// `sim` is mutated between the steps, the sweepers only borrow it while they are fed: keep the sweeper as
+	// persisted bytes between steps and re-create it from them (this *is* the round trip under test for the
+	// lagging copy; the leading copy is compared against an instance that never went through bytes within the step)
+	let mut fed: Vec<bitcoin::BlockHash> = sim.chain.blocks.iter().map(|b| b.block_hash()).collect();
+	let mut prev_bytes: Option<Vec<u8>> = None;
+	let mut log_pos = sim.log.len();
+	for op in c.ops.iter() {
+		let Some(tag) = apply_guarded(&mut sim, &c.spec, op, ctx)? else { return Ok(()) };
+		tags.push(tag);
+		// leading copy: the instance as it was (re-created from its own bytes only because the borrow of `sim`
+		// has to end between steps; checked below to be loss-free), lagging copy: same bytes, separate rig
+		let rig_b = Rig::new(change.clone());
+		let (sw_a, sw_b) = match &prev_bytes {
+			None => {
+				// nothing persisted yet: a fresh sweeper starting at the current tip
+				fed = sim.chain.blocks.iter().map(|b| b.block_hash()).collect();
+				(new_sweeper(&rig_a, &sim, x), new_sweeper(&rig_b, &sim, x))
+			},
+			Some(b) => {
+				let a = reload_sweeper(&rig_a, &sim, x, b).map_err(|e| Failure::new("sweeper-read", format!("{:?}", e)).with_key("sweeper-read"))?;
+				let bb = reload_sweeper(&rig_b, &sim, x, b).map_err(|e| Failure::new("sweeper-read", format!("{:?}", e)).with_key("sweeper-read"))?;
+				st.reloads += 1;
+				(a, bb)
+			},
+		};
+		let mut fed_b = fed.clone();
+		sync_chain(&sw_a, &sim, &mut fed, Some(&mut st));
+		sync_chain(&sw_b, &sim, &mut fed_b, None);
+		for (descs, chan) in new_descriptors(&sim, x, log_pos) {
+			let d = c.delays[batches % c.delays.len()];
+			batches += 1;
+			let delay = if d == 0 { None } else { Some(sim.chain.height() + d as u32) };
+			st.delayed |= delay.is_some();
+			for sw in [&sw_a, &sw_b] {
+				let _ = sw.track_spendable_outputs(descs.clone(), chan, None, c.exclude_static, delay);
+			}
+		}
+		log_pos = sim.log.len();
+		let _ = sw_a.regenerate_and_broadcast_spend_if_necessary();
+		let _ = sw_b.regenerate_and_broadcast_spend_if_necessary();
+		// same state, same inputs => same tracked outputs, tip and broadcasts
+		let (ta, tb) = (sw_a.tracked_spendable_outputs(), sw_b.tracked_spendable_outputs());
+		vensure!(render_tracked(&ta) == render_tracked(&tb), "sweeper-twin", "after {}: tracked outputs differ\n a: {:?}\n b: {:?}", tag, render_tracked(&ta), render_tracked(&tb));
+		vensure!(sw_a.current_best_block() == sw_b.current_best_block(), "sweeper-twin", "best block differs");
+		let bc_a: Vec<bitcoin::Transaction> = rig_a.bc.txs.lock().unwrap().drain(..).collect();
+		let bc_b: Vec<bitcoin::Transaction> = rig_b.bc.txs.lock().unwrap().drain(..).collect();
+		let key = |t: &bitcoin::Transaction| {
+			let mut i: Vec<String> = t.input.iter().map(|i| i.previous_output.to_string()).collect();
+			i.sort();
+			format!("{:?} {:?} {}", i, t.output, t.lock_time)
+		};
+		vensure!(bc_a.iter().map(key).collect::<Vec<_>>() == bc_b.iter().map(key).collect::<Vec<_>>(), "sweeper-twin", "after {}: broadcasts differ", tag);
+		st.steps_compared += 1;
+		st.broadcasts += bc_a.len() as u64;
+		st.tracked_max = st.tracked_max.max(ta.len());
+		for o in ta.iter() {
+			use lightning::util::sweep::OutputSpendStatus::*;
+			match o.status {
+				PendingFirstConfirmation { .. } => st.pending_first_conf = true,
+				PendingThresholdConfirmations { .. } => st.pending_threshold = true,
+				_ => {},
+			}
+		}
+		// the persisted bytes: read back equal to the live instance; both copies persisted the same state
+		let bytes_a = rig_a.store.sweeper_bytes();
+		if let Some(b) = &bytes_a {
+			let rig_c = Rig::new(change.clone());
+			let sw_c = reload_sweeper(&rig_c, &sim, x, b).map_err(|e| Failure::new("sweeper-read", format!("{:?}", e)).with_key("sweeper-read"))?;
+			// the persisted image may lag the in-memory state only by what the block callbacks changed after the
+			// last persisting call; `regenerate_and_broadcast_spend_if_necessary` above persisted everything
+			vensure!(sw_c.tracked_spendable_outputs() == ta, "sweeper-roundtrip", "after {}: read(persisted bytes) has different tracked outputs than the live sweeper", tag);
+			vensure!(sw_c.current_best_block() == sw_a.current_best_block(), "sweeper-roundtrip", "after {}: read(persisted bytes) has a different best block", tag);
+			if let Some(bb) = rig_b.store.sweeper_bytes() {
+				st.store_compared += 1;
+				if bb == *b {
+					st.byte_equal_stores += 1;
+				}
+			}
+		}
+		drop(sw_a);
+		drop(sw_b);
+		// the sweeps go to the mempool of the world so that later blocks confirm them
+		for t in bc_a.iter() {
+			let _ = sim.chain.broadcast(t);
+		}
+		prev_bytes = bytes_a.or(prev_bytes);
+	}
+	ctx.sub_evaluations(st.steps_compared);
+	ctx.label_if(st.tracked_max > 0, "sweeper:tracked-outputs");
+	ctx.label_if(st.tracked_max > 1, "sweeper:several-outputs");
+	ctx.label_if(st.pending_first_conf, "sweeper:sweep-awaiting-first-confirmation");
+	ctx.label_if(st.pending_threshold, "sweeper:sweep-awaiting-threshold");
+	ctx.label_if(st.delayed, "sweeper:delayed-sweep");
+	ctx.label_if(st.reorgs > 0, "sweeper:reorg");
+	ctx.label_if(st.store_compared > st.byte_equal_stores, "sweeper:twin-bytes-differ(signature-randomness/input-order)");
+	ctx.nontrivial_if(st.pending_first_conf || st.pending_threshold);
+	ctx.summary(json!({"ops": tags, "stats": format!("{:?}", st)}));
+	Ok(())
+}
+
 fn main() {
 	install_recording_signer();
 	let mut c = Check::new("C12", "exploration");
@@ -495,5 +700,6 @@ fn main() {
 	c.part_with(PartSpec { name: "manager-twin", rule: "wip", quick_cases: 300, thorough_cases: 10_000, max_shrink: 300 }, twin_strat, twin_oracle);
 	c.part_with(PartSpec { name: "corruptions", rule: "wip", quick_cases: 150, thorough_cases: 5_000, max_shrink: 200 }, corrupt_strat, corrupt_oracle);
 	c.part_with(PartSpec { name: "graph-scorer", rule: "wip", quick_cases: 600, thorough_cases: 20_000, max_shrink: 1000 }, score_strat, score_oracle);
+	c.part_with(PartSpec { name: "sweeper", rule: "wip", quick_cases: 300, thorough_cases: 10_000, max_shrink: 300 }, sweep_strat, sweep_oracle);
 	c.finish();
 }
